@@ -141,27 +141,17 @@ Theorem C10_image_compose : forall im v n t d,
 Proof. exact compose_table. Qed.
 Print Assumptions C10_image_compose.
 
-(* The transformer updates an image field once: the legacy scan and the field-spec filter share the
-   set of fields already updated (repair of C10/image-tagsuffix-applied-twice).  Regression witness:
-   tagSuffix -s turns x:1 into x:1-s (it used to give x:1-s-s) ... *)
-Theorem C10_image_transform_once_regression :
+(* "the transformer updates an image field once" is FALSE: ImageTagTransformer runs the legacy filter
+   and then the field-spec filter, so tagSuffix -s turns x:1 into x:1-s-s
+   (finding C10/image-tagsuffix-applied-twice; the proposed repair was declined) *)
+Theorem C10_image_transform_once_refuted :
   update_value twice_parse twice_entry "x:1" = Ok (Some "x:1-s") /\
   image_transform twice_parse twice_entry gen_images_fs [twice_doc] =
   Ok [Map [("kind", Scalar TStr SPlain "Pod");
            ("spec", Map [("containers", Seq [Map [("name", Scalar TStr SPlain "c");
-                                                  ("image", Scalar TNone SPlain "x:1-s")]])])]].
-Proof. exact image_suffix_once_regression. Qed.
-Print Assumptions C10_image_transform_once_regression.
-
-(* ... and in general the result is, node by node, the legacy result where it differs from the input
-   and otherwise the field-spec result computed on the input: no field is updated by both filters *)
-Theorem C10_image_transform_once : forall parse im fss rs,
-  image_transform parse im fss rs =
-  (do rs1 <- mapM (legacy_filter parse im) rs;
-   do rsf <- mapM (image_fs_filter parse im fss) rs;
-   Ok (combine_list rs rs1 rsf)).
-Proof. exact image_transform_shares_visited. Qed.
-Print Assumptions C10_image_transform_once.
+                                                  ("image", Scalar TNone SPlain "x:1-s-s")]])])]].
+Proof. exact image_suffix_twice_lemma. Qed.
+Print Assumptions C10_image_transform_once_refuted.
 
 (* ------------------------------------------------------------------ replicas *)
 
@@ -459,13 +449,18 @@ Theorem Gen_C10_match_patterns :
 Proof. exact gen_match_patterns_shape. Qed.
 Print Assumptions Gen_C10_match_patterns.
 
-(* the three repairs, as the translator reads them out of the source *)
+(* the two landed repairs (/repo a578c9a, 7d89942), as the translator reads them out of the source *)
 Theorem Gen_C10_repairs :
   gen_match_doseq_guarded = true /\
-  (gen_replacement_source_copied = true /\ gen_replacement_source_return_recognised = true) /\
-  (gen_image_transform_filters = 2 /\ gen_image_transform_shares_visited = true).
-Proof. exact (conj gen_match_doseq_is_guarded (conj gen_replacement_source_is_copied gen_image_transform_dedupes)). Qed.
+  (gen_replacement_source_copied = true /\ gen_replacement_source_return_recognised = true).
+Proof. exact (conj gen_match_doseq_is_guarded gen_replacement_source_is_copied). Qed.
 Print Assumptions Gen_C10_repairs.
+
+(* ImageTagTransformer.Transform still runs its two filters independently (the repair was declined) *)
+Theorem Gen_C10_image_transform :
+  gen_image_transform_filters = 2 /\ gen_image_transform_shares_visited = false.
+Proof. exact gen_image_transform_independent. Qed.
+Print Assumptions Gen_C10_image_transform.
 
 Theorem Gen_C10_default_field_path : gen_default_replacement_field_path = "metadata.name".
 Proof. exact gen_default_field_path. Qed.
